@@ -351,9 +351,18 @@ func ExtractFunctions(astNode *ast.AST) []string {
 
 	seen := make(map[string]bool)
 	result := make([]string, 0)
+	// MATCH(cols) AGAINST (expr) is represented with a synthetic call node
+	// named AGAINST: that is a keyword of the predicate, not a function the
+	// statement calls.
+	synthetic := make(map[*ast.FunctionCall]bool)
 	for _, stmt := range astNode.Statements {
 		ast.Inspect(stmt, func(n ast.Node) bool {
-			if fn, ok := n.(*ast.FunctionCall); ok && fn != nil && fn.Name != "" && !seen[fn.Name] {
+			if b, ok := n.(*ast.BinaryExpression); ok && b != nil && strings.EqualFold(b.Operator, "AGAINST") {
+				if f, isCall := b.Right.(*ast.FunctionCall); isCall && f != nil && strings.EqualFold(f.Name, "AGAINST") {
+					synthetic[f] = true
+				}
+			}
+			if fn, ok := n.(*ast.FunctionCall); ok && fn != nil && fn.Name != "" && !seen[fn.Name] && !synthetic[fn] {
 				seen[fn.Name] = true
 				result = append(result, fn.Name)
 			}
@@ -416,10 +425,26 @@ func walkTableNames(astNode *ast.AST, add func(name string)) {
 					addRef(v.TargetTable)
 					addRef(v.SourceTable)
 				}
+			case *ast.ReplaceStatement:
+				if v != nil && v.TableName != "" {
+					add(v.TableName)
+				}
 			}
 			return true
 		})
 	}
+}
+
+// isNiladicKeyword reports whether an unqualified name is one of the SQL value
+// keywords that are written without parentheses (CURRENT_DATE, ...): the parser
+// represents them as identifiers, but they are keywords, not columns.
+func isNiladicKeyword(name string) bool {
+	switch strings.ToUpper(name) {
+	case "CURRENT_DATE", "CURRENT_TIME", "CURRENT_TIMESTAMP", "CURRENT_USER",
+		"LOCALTIME", "LOCALTIMESTAMP", "SESSION_USER":
+		return true
+	}
+	return false
 }
 
 // walkColumnRefs calls add(table, name) for every column reference anywhere in
@@ -440,7 +465,7 @@ func walkColumnRefs(astNode *ast.AST, add func(table, name string)) {
 		ast.Inspect(stmt, func(n ast.Node) bool {
 			switch v := n.(type) {
 			case *ast.Identifier:
-				if v != nil && v.Name != "" && v.Name != "*" {
+				if v != nil && v.Name != "" && v.Name != "*" && !(v.Table == "" && isNiladicKeyword(v.Name)) {
 					add(v.Table, v.Name)
 				}
 			case *ast.MergeStatement:
